@@ -329,6 +329,11 @@ where
                                 msg_epoch,
                             );
 
+                            // The rollback restored the group record as it was when the snapshot
+                            // was taken, including its cached last-message pointer, while stored
+                            // messages are kept. Point it at the first still-valid message again.
+                            self.refresh_last_message_pointer(&group.mls_group_id);
+
                             // Find messages that failed to decrypt because we had the wrong
                             // commit's keys. Now that we've rolled back and will apply the
                             // correct commit, these can potentially be decrypted.
@@ -432,6 +437,33 @@ where
     ///
     /// `Some(GroupId)` if the group is found in storage,
     /// `None` if the h-tag is missing/malformed or the group isn't in storage.
+    /// Recompute the group's cached last-message pointer from the stored messages: the first
+    /// message of the default order that is not epoch-invalidated, or nothing. Best effort.
+    fn refresh_last_message_pointer(&self, mls_group_id: &GroupId) {
+        let Ok(Some(mut stored_group)) = self.get_group(mls_group_id) else {
+            return;
+        };
+        let pagination = mdk_storage_traits::groups::Pagination::new(
+            Some(mdk_storage_traits::groups::MAX_MESSAGE_LIMIT),
+            Some(0),
+        );
+        let Ok(messages) = self.get_messages(mls_group_id, Some(pagination)) else {
+            return;
+        };
+        let head = messages
+            .iter()
+            .find(|m| m.state != message_types::MessageState::EpochInvalidated);
+        stored_group.last_message_id = head.map(|m| m.id);
+        stored_group.last_message_at = head.map(|m| m.created_at);
+        stored_group.last_message_processed_at = head.map(|m| m.processed_at);
+        if self.storage().save_group(stored_group).is_err() {
+            tracing::warn!(
+                target: "mdk_core::messages::process_message",
+                "Failed to refresh last-message pointer after rollback"
+            );
+        }
+    }
+
     pub(super) fn extract_mls_group_id_from_event(&self, event: &Event) -> Option<GroupId> {
         let nostr_group_id = self.extract_nostr_group_id(event).ok()?;
 
